@@ -5,6 +5,7 @@ import CedarVerif.Lemmas.NoPanicDatetime
 import CedarVerif.Lemmas.NoPanicCollections
 import CedarVerif.Lemmas.NoPanicDispatch
 import CedarVerif.Lemmas.NoPanicPartialResponse
+import CedarVerif.Lemmas.NoPanicUnescape
 import CedarVerif.Thm.C08
 /-
 C20 — No panics on arbitrary input (mirrored components).
@@ -27,6 +28,8 @@ Mirrored sites and what is proved:
  (g) `PartialResponse` accessors -> `Policy::new` `expect` (debug builds)   REACHABLE (known finding C13-residual-slot-panic);
      unreachable iff no residual keeps a template slot; `definitely_satisfied`/`must_be_determining` never
                                             no_panic_partial_response, partial_response_panics_iff, partial_response_panic_reachable
+ (i) `Unescape::unescape` range arithmetic (rustc_literal_escaper 0.0.8), `to_pattern` `&bytes[range]`, `Display for
+     UnescapeError` `&self.input[self.range]`                               unreachable, all inputs      no_panic_unescape_slices
  (h) `ast::PolicySet` `panic!` sites of `unlink`/`remove_template`, `unwrap` in `merge_policyset`: proved in C08, cited here
                                                                      no_panic_policyset_op, no_panic_policyset_history, no_panic_policyset_merge
 -/
@@ -497,5 +500,52 @@ theorem no_panic_policyset_history (ops : List CoreOp) (adm : PolicySet.admissib
 theorem no_panic_policyset_merge (ps other : PolicySet) (rename : Bool) (m : String) :
     (ps.merge other rename).err ≠ some (.panic m) :=
   (C08.merge_no_panic_fail_unchanged ps other rename).1 m
+
+/-! ### (i) string unescaping: ranges and slices (cedar-policy-core/src/parser/unescape.rs over rustc_literal_escaper 0.0.8)
+
+Mirror `Cedar/NoPanic/Unescape.lean`: `Unescape::unescape` with the `Chars` iterator explicit, so that every callback range is
+computed by the crate's own `src.len() - chars.as_str().len() - c.len_utf8()` arithmetic (usize underflow = `.panic`), ALL
+callbacks are produced (the loop continues after an error), `skip_ascii_whitespace`'s `split_at` is a site; then
+`to_pattern`'s `&bytes[range.clone()]` and `Display for UnescapeError`'s `&self.input[self.range.clone()]` over every stored
+error. (`extensions/decimal.rs` uses `caps.get(1).ok_or_else(..)?`, not `unwrap`: it has no panic site.) -/
+
+open Cedar.NoPanic in
+/-- every range handed to the callback is cut out by a decomposition `src = pre ++ mid ++ post`: ordered, in bounds, both ends
+on char boundaries — whatever multi-byte characters and broken escapes the input contains; the loop's fuel suffices -/
+theorem unescape_ranges_on_boundaries (src : List Char) :
+    ∃ cbs, unescapeCallbacks src = .done cbs ∧
+      ∀ cb ∈ cbs, byteRangeOk src cb.start cb.stop = true ∧ ∃ mid, sliceRange src cb.start cb.stop = some mid := by
+  obtain ⟨cbs, hc, hg⟩ := unescapeCallbacks_ok src
+  refine ⟨cbs, hc, fun cb hcb => ?_⟩
+  obtain ⟨mid, h1, h2⟩ := (hg cb hcb).slice
+  exact ⟨h2, mid, h1⟩
+
+open Cedar.NoPanic in
+/-- `to_unescaped_string` / `to_pattern` followed by `to_string()` of every error: no slice, no subtraction can panic -/
+theorem no_panic_unescape_slices (src : List Char) (pat : Bool) :
+    (∀ site, unescapeSlices src pat ≠ .panic site) ∧ unescapeSlices src pat ≠ .fuel := by
+  obtain ⟨acc, shown, h⟩ := unescapeSlices_ok src pat
+  rw [h]
+  exact ⟨fun _ h => SliceOutcome.noConfusion h, fun h => SliceOutcome.noConfusion h⟩
+
+-- non-vacuity: several errors in one input, multi-byte chars before / inside / after the reported ranges, `\*` in both modes,
+-- backslash-newline continuation before a multi-byte char; and the slice sites are real (offsets inside `é` fail)
+open Cedar.NoPanic in
+example : unescapeSlices "a\\*b\\qé\\u{110000}x\\".toList true =
+    .ret false ["\\q".toList, "\\u{110000}".toList, "\\".toList] := by decide +kernel
+open Cedar.NoPanic in
+example : unescapeSlices "a\\*".toList false = .ret false ["\\*".toList] := by decide +kernel
+open Cedar.NoPanic in
+example : unescapeSlices "é\\é😀".toList false = .ret false ["\\é".toList] := by decide +kernel
+open Cedar.NoPanic in
+example : unescapeSlices "é\\\n  \t é\\xzz".toList false = .ret false ["\\xz".toList] := by decide +kernel
+open Cedar.NoPanic in
+example : unescapeSlices "é\\n\\u{1F600}".toList false = .ret true [] := by decide +kernel
+open Cedar.NoPanic in
+example : sliceRange "é".toList 0 1 = none := by decide +kernel
+open Cedar.NoPanic in
+example : sliceRange "aé".toList 2 3 = none := by decide +kernel
+open Cedar.NoPanic in
+example : byteRangeOk "aé".toList 2 4 = false := by decide +kernel
 
 end Cedar.C20
